@@ -25,16 +25,20 @@ Notation runV := (run vec fr frames_of restore).
 Notation buildV := (build vec fr frames_of project_all).
 Notation result_ofV := (result_of vec fr frames_of restore).
 
-(* labels of a cell: everything but the position / everything but the topology residue number *)
-Definition glab (c : gcell vec) := (g_resid c, g_resname c, g_name c, g_atomid c, g_vel c).
+(* labels of a cell: everything but the position and the residue number (the two things operations can write) /
+   everything but the topology residue number *)
+Definition glab (c : gcell vec) := (g_resname c, g_name c, g_atomid c, g_vel c).
 Definition tlab (c : tcell) := (t_name c, t_resname c, t_index c, t_bonds c).
 
 Lemma glab_set_pos v c : glab (set_pos vec v c) = glab c.
 Proof. reflexivity. Qed.
 Lemma tlab_set_tresid z c : tlab (set_tresid z c) = tlab c.
 Proof. reflexivity. Qed.
-Lemma set_pos_glab v c c' : glab c = glab c' -> set_pos vec v c = set_pos vec v c'.
-Proof. destruct c, c'; unfold glab, set_pos; simpl; intros E; inversion E; reflexivity. Qed.
+Lemma glab_set_gresid z c : glab (set_gresid vec z c) = glab c.
+Proof. reflexivity. Qed.
+Lemma set_both_glab v z c c' :
+  glab c = glab c' -> set_gresid vec z (set_pos vec v c) = set_gresid vec z (set_pos vec v c').
+Proof. destruct c, c'; unfold glab, set_pos, set_gresid; simpl; intros E; inversion E; reflexivity. Qed.
 
 (* ---------------- reading cells ---------------- *)
 Lemma nth_res_app_l {A} (a e : list A) l c : nth_res a l = Ok c -> nth_res (a ++ e) l = Ok c.
@@ -417,6 +421,28 @@ Proof.
   split; simpl; [|reflexivity]. exists []. rewrite app_nil_r. apply upd_map. intros; reflexivity.
 Qed.
 
+Lemma renumber_spec h m rids h' : renumber vec h m rids = Ok h' ->
+  lab_ext h h' /\ length (gro h') = length (gro h) /\
+  (forall l, ~ In l (m_top m) -> nth_error (top h') l = nth_error (top h) l).
+Proof.
+  unfold renumber. destruct rids as [|z0 rids0]; [discriminate|]. set (rids := z0 :: rids0).
+  destruct (mol_resids vec h m) as [cur|]; cbn [bind]; [|discriminate].
+  match goal with |- context [if ?c then _ else _] => destruct c end; [discriminate|].
+  destruct (zip_res (m_atoms m) (per_atom (m_res m) rids)) as [a|] eqn:Za; simpl; [|discriminate].
+  destruct (zip_res (m_top m) (per_atom (m_res m) rids)) as [b|] eqn:Zb; simpl; [|discriminate].
+  intros E; inversion E; subst; clear E. simpl.
+  destruct (zip_res_ok _ _ _ Zb) as [-> _].
+  split; [split|split].
+  - exists []. rewrite app_nil_r. simpl. apply (writes_map glab).
+    intros lw x Hin. apply in_map_iff in Hin. destruct Hin as [[l z] [<- _]]. reflexivity.
+  - simpl. apply (writes_map tlab).
+    intros lw x Hin. apply in_map_iff in Hin. destruct Hin as [[l z] [<- _]]. reflexivity.
+  - apply writes_length.
+  - intros l Hnl. apply writes_nth_other. intros Hin. apply Hnl.
+    rewrite map_map in Hin. simpl in Hin. apply in_map_iff in Hin. destruct Hin as [[l' z] [<- Hin]]. simpl.
+    eapply in_combine_l; eauto.
+Qed.
+
 Lemma with_heap_lab (st : stateV) r :
   (forall h', r = Ok h' -> lab_ext (s_heap st) h') ->
   lab_ext (s_heap st) (s_heap (fst (with_heap vec fr st r))) /\ same_map st (fst (with_heap vec fr st r)).
@@ -428,13 +454,18 @@ Qed.
 
 Lemma step_lab st o : lab_ext (s_heap st) (s_heap (fst (stepV st o))) /\ same_map st (fst (stepV st o)).
 Proof.
-  destruct o as [h| |i v|i v|h i v]; simpl.
+  destruct o as [h| |i v|i v|h i v|rids|rids|h rids]; simpl.
   - pose proof (call_lab st h) as H. destruct (callV st h) as [st' r]; exact H.
   - split; [apply lab_ext_refl|apply same_map_refl].
   - apply with_heap_lab. intros h' E. eapply poke_lab; eauto.
   - apply with_heap_lab. intros h' E. eapply poke_lab; eauto.
   - destruct (nth_error (s_objs st) h) as [m|]; simpl.
     + apply with_heap_lab. intros h' E. eapply poke_lab; eauto.
+    + split; [apply lab_ext_refl|apply same_map_refl].
+  - apply with_heap_lab. intros h' E. apply (renumber_spec _ _ _ _ E).
+  - apply with_heap_lab. intros h' E. apply (renumber_spec _ _ _ _ E).
+  - destruct (nth_error (s_objs st) h) as [m|]; simpl.
+    + apply with_heap_lab. intros h' E. apply (renumber_spec _ _ _ _ E).
     + split; [apply lab_ext_refl|apply same_map_refl].
 Qed.
 
@@ -505,20 +536,24 @@ Proof.
   apply (f_equal (@length _)) in Hx. rewrite !map_length in Hx. exact Hx.
 Qed.
 
-Lemma set_positions_lab (tc tc' : list (list (gcell vec))) ps :
-  map (map glab) tc = map (map glab) tc' -> set_positions vec tc ps = set_positions vec tc' ps.
+Lemma final_lab (tc tc' : list (list (gcell vec))) ps rids :
+  map (map glab) tc = map (map glab) tc' ->
+  map (fun rc => map (set_gresid vec (snd rc)) (fst rc)) (combine (set_positions vec tc ps) rids) =
+  map (fun rc => map (set_gresid vec (snd rc)) (fst rc)) (combine (set_positions vec tc' ps) rids).
 Proof.
-  revert tc' ps; induction tc as [|r tc IH]; intros [|r' tc'] ps E; simpl in *; try discriminate; [reflexivity|].
-  inversion E as [[Hr Ht]].
+  revert tc' ps rids; induction tc as [|r tc IH]; intros [|r' tc'] ps rids E; simpl in *; try discriminate; [reflexivity|].
+  destruct rids as [|z rids]; [reflexivity|].
+  assert (Hr : map glab r = map glab r') by (exact (f_equal (hd (map glab r)) E)).
+  assert (Ht : map (map glab) tc = map (map glab) tc') by (exact (f_equal (@tl _) E)).
   assert (Hl : length r = length r').
   { apply (f_equal (@length _)) in Hr. rewrite !map_length in Hr. exact Hr. }
-  rewrite <- Hl, (IH tc' _ Ht). f_equal.
+  simpl. rewrite <- Hl, (IH tc' _ rids Ht). f_equal.
   generalize (firstn (length r) ps) as qs. clear - Hr.
   revert r' Hr; induction r as [|c r IHr]; intros [|c' r'] Hr qs; simpl in *; try discriminate; [reflexivity|].
   destruct qs as [|q qs]; [reflexivity|]. simpl.
   assert (Hc : glab c = glab c') by (exact (f_equal (hd (glab c)) Hr)).
   assert (Hr' : map glab r = map glab r') by (exact (f_equal (@tl _) Hr)).
-  rewrite (set_pos_glab q c c' Hc), (IHr r' Hr' qs). reflexivity.
+  rewrite (set_both_glab q z c c' Hc), (IHr r' Hr' qs). reflexivity.
 Qed.
 
 Lemma result_of_lab ec g (tc tc' : list (list (gcell vec))) ps rids :
@@ -528,7 +563,7 @@ Proof.
   destruct (frames_of g ps) as [frs|]; simpl; [|reflexivity].
   destruct (restore_all vec fr restore frs ec) as [ps'|]; simpl; [|reflexivity].
   pose proof (labs_shape _ _ E) as Hs.
-  rewrite (shape_concat_length _ _ Hs), (shape_length _ _ Hs), (set_positions_lab _ _ _ E). reflexivity.
+  rewrite (shape_concat_length _ _ Hs), (shape_length _ _ Hs), (final_lab _ _ _ _ E). reflexivity.
 Qed.
 
 (* ---------------- construction ---------------- *)
@@ -717,6 +752,32 @@ Proof.
   apply Nat.eqb_eq in E. contradiction.
 Qed.
 
+(* the verdict consults nothing the map has stored: a map built NOW, in the current world, from the same
+   reference molecule (and any target) takes the same accept / reject decision on every handle *)
+Theorem verdict_fresh_now hp objs ref tgt st0 g0 tgt2 stf :
+  buildV hp objs ref tgt = Ok st0 -> mol_graph vec hp ref = Ok g0 ->
+  forall ops, let st := runV st0 ops in
+  buildV (s_heap st) (s_objs st) ref tgt2 = Ok stf ->
+  forall h arg, nth_error (s_objs st) h = Some arg ->
+  nth_error (s_objs stf) h = Some arg /\
+  mol_eq vec (s_heap stf) (e_ref (s_map stf)) arg = mol_eq vec (s_heap st) (e_ref (s_map st)) arg /\
+  (mol_eq vec (s_heap st) (e_ref (s_map st)) arg = Ok false ->
+     snd (stepV st (Call h)) = OCall (Err EType) /\ snd (stepV stf (Call h)) = OCall (Err EType)).
+Proof.
+  intros Hb Hg ops st Hf h arg Hh.
+  destruct (build_facts _ _ _ _ _ _ Hb Hg) as (_ & _ & Href & _).
+  destruct (run_lab ops st0) as [L (M1 & _)]. fold st in L, M1.
+  assert (Hgf : mol_graph vec (s_heap st) ref = Ok g0).
+  { rewrite (mol_graph_lab (s_heap st0) (s_heap st) ref L).
+    destruct (build_facts _ _ _ _ _ _ Hb Hg) as (-> & _). exact Hg. }
+  destruct (build_facts _ _ _ _ _ _ Hf Hgf) as (Hh1 & Ho1 & Href1 & _).
+  rewrite Hh1, Ho1, Href1, M1, Href. split; [exact Hh|]. split; [reflexivity|]. intros He. split.
+  - rewrite (reject_other_species st h arg Hh); [reflexivity|]. rewrite M1, Href; exact He.
+  - rewrite (reject_other_species stf h arg); [reflexivity| |].
+    + rewrite Ho1; exact Hh.
+    + rewrite Hh1, Href1. exact He.
+Qed.
+
 (* ---------------- C04_labels ---------------- *)
 Definition glab_nr (c : gcell vec) := (g_resname c, g_name c, g_atomid c, g_vel c).
 
@@ -794,7 +855,7 @@ Lemma step_keys g0 (st : stateV) o :
   map fst (e_refsys (s_map st)) = anchors g0 -> accepted_have_graph g0 st o ->
   map fst (e_refsys (s_map (fst (stepV st o)))) = anchors g0.
 Proof.
-  intros Hk Hacc. destruct o as [h| |i v|i v|h i v]; simpl.
+  intros Hk Hacc. destruct o as [h| |i v|i v|h i v|rids|rids|h rids]; simpl.
   - change (map fst (e_refsys (s_map (fst (stepV st (Call h))))) = anchors g0). rewrite fst_step_call.
     destruct (call_refsys st h) as [E|(arg & ps & g & frs & Hh & He & Hg & Hf & E)]; rewrite E; [exact Hk|].
     simpl in Hacc. rewrite (Hacc arg Hh He) in Hg. inversion Hg; subst g.
@@ -804,6 +865,10 @@ Proof.
   - destruct (poke vec (s_heap st) (e_tgt (s_map st)) i v); exact Hk.
   - destruct (nth_error (s_objs st) h) as [m|]; [|exact Hk].
     destruct (poke vec (s_heap st) m i v); exact Hk.
+  - destruct (renumber vec (s_heap st) (e_ref (s_map st)) rids); exact Hk.
+  - destruct (renumber vec (s_heap st) (e_tgt (s_map st)) rids); exact Hk.
+  - destruct (nth_error (s_objs st) h) as [m|]; [|exact Hk].
+    destruct (renumber vec (s_heap st) m rids); exact Hk.
 Qed.
 
 Theorem keys_invariant hp objs ref tgt st0 g0 :
@@ -819,24 +884,31 @@ Qed.
 Definition top_other (tl : list loc) (h h' : heapV) : Prop :=
   forall l, ~ In l tl -> nth_error (top h') l = nth_error (top h) l.
 
-Lemma step_top_other (st : stateV) o :
+(* operations that may rewrite topology residue numbers OUTSIDE the target's topology *)
+Definition no_foreign_renum (o : op vec) : Prop :=
+  match o with RenumRef _ | RenumObj _ _ => False | _ => True end.
+
+Lemma step_top_other (st : stateV) o : no_foreign_renum o ->
   top_other (m_top (e_tgt (s_map st))) (s_heap st) (s_heap (fst (stepV st o))).
 Proof.
-  intros l Hl. destruct o as [h| |i v|i v|h i v].
+  intros Hno l Hl. destruct o as [h| |i v|i v|h i v|rids|rids|h rids]; try contradiction.
   - rewrite fst_step_call. destruct (call_framed st h) as (_ & _ & Hn & _). apply Hn; exact Hl.
   - reflexivity.
   - simpl. unfold poke. destruct (nth_res _ i); simpl; [|reflexivity]. destruct (nth_res _ l0); reflexivity.
   - simpl. unfold poke. destruct (nth_res _ i); simpl; [|reflexivity]. destruct (nth_res _ l0); reflexivity.
   - simpl. destruct (nth_error (s_objs st) h) as [m|]; [|reflexivity].
     unfold poke. destruct (nth_res _ i); simpl; [|reflexivity]. destruct (nth_res _ l0); reflexivity.
+  - simpl. destruct (renumber vec (s_heap st) (e_tgt (s_map st)) rids) as [h'|] eqn:E; simpl; [|reflexivity].
+    destruct (renumber_spec _ _ _ _ E) as (_ & _ & Hn). apply Hn; exact Hl.
 Qed.
 
-Lemma run_top_other ops : forall st : stateV,
+Lemma run_top_other ops : forall st : stateV, Forall no_foreign_renum ops ->
   top_other (m_top (e_tgt (s_map st))) (s_heap st) (s_heap (runV st ops)).
 Proof.
-  induction ops as [|o ops IH]; intros st l Hl; simpl; [reflexivity|].
+  induction ops as [|o ops IH]; intros st Hf l Hl; simpl; [reflexivity|].
+  inversion Hf as [|? ? Ho Hr]; subst.
   destruct (step_lab st o) as [_ (_ & M2 & _)].
-  rewrite IH by (rewrite M2; exact Hl). apply step_top_other; exact Hl.
+  rewrite IH by (try assumption; rewrite M2; exact Hl). apply step_top_other; assumption.
 Qed.
 
 Definition vproj (tg : tcell * gcell vec) := (fst tg, glab (snd tg)).
@@ -902,11 +974,11 @@ Theorem valid_stable hp objs ref tgt st0 g0 arg v :
   buildV hp objs ref tgt = Ok st0 -> mol_graph vec hp ref = Ok g0 ->
   (forall l, In l (m_top tgt) -> ~ In l (m_top ref) /\ ~ In l (m_top arg)) ->
   mol_eq vec hp ref arg = Ok v ->
-  forall ops, mol_eq vec (s_heap (runV st0 ops)) ref arg = Ok v.
+  forall ops, Forall no_foreign_renum ops -> mol_eq vec (s_heap (runV st0 ops)) ref arg = Ok v.
 Proof.
-  intros Hb Hg Hsep He ops.
+  intros Hb Hg Hsep He ops Hops.
   destruct (build_facts _ _ _ _ _ _ Hb Hg) as (Hh0 & _ & _ & Htgt & _).
-  destruct (run_lab ops st0) as [L _]. pose proof (run_top_other ops st0) as Ht.
+  destruct (run_lab ops st0) as [L _]. pose proof (run_top_other ops st0 Hops) as Ht.
   rewrite Hh0 in L, Ht. rewrite Htgt in Ht.
   apply (mol_eq_stable hp _ ref arg v L); [|exact He].
   intros l Hl. apply Ht. intros Hin. destruct (Hsep l Hin) as [H1 H2]. tauto.
